@@ -23,7 +23,8 @@ fn shapes8() -> Vec<Shape> {
 
 fn shapes14() -> Vec<Shape> {
     let mut v = shapes8();
-    v.extend([S(16, 16), S(24, 8), S(6, 2), S(0, 8), S(5, 1), S(2, 1)]);
+    // (6,4): a size that is not a multiple of the alignment (only an override can record that)
+    v.extend([S(16, 16), S(24, 8), S(6, 2), S(0, 8), S(5, 1), S(2, 1), S(6, 4)]);
     v
 }
 
@@ -89,6 +90,7 @@ fn passes_inner(prop: &str, tier: Tier) -> Vec<Bounds> {
                 // narrow and deep: long first variants (wide gaps with misaligned starts), two
                 // removals and two additions in the second step, one more step
                 v.push(narrow(vec![5, 2, 1], vec![0, 2, 1], vec![S(1, 1), S(4, 4), S(12, 4)]));
+                v.push(narrow(vec![3, 2, 1], vec![0, 1, 1], vec![S(1, 1), S(4, 4), S(6, 4), S(2, 2)]));
                 v
             } else {
                 // ordered by cost; the generated-text oracles run on the first three (gen_text())
